@@ -4,6 +4,8 @@ import JominiModel.Props.C08
 #print axioms Jomini.Props.C08.C08_codec_exclusions
 #print axioms Jomini.Props.C08.C08_prefix_stable
 #print axioms Jomini.Props.C08.C08_lexer_api
+#print axioms Jomini.Props.C08.C08_lexer_primitives
+#print axioms Jomini.Props.C08.C08_fits_of_large
 #print axioms Jomini.Props.C08.C08_Buffer_refines
 #print axioms Jomini.Props.C08.C08_Buffer_refines_init
 #print axioms Jomini.Props.C08.C08_stream_eq_lexer
